@@ -162,6 +162,11 @@ func (rn *runner) GenOp(r *vh.Rand, i int) string {
 					continue
 				}
 				bl = append(bl, c)
+				// more callers of the same kind: a second stream for Read / Write, the same object for the rest
+				max := map[string]int{"read": 2, "write": 2, "accept": 3, "acceptuni": 3, "open": 3, "openuni": 3, "rcvdgram": 3, "senddgram": 3}[c]
+				for k := 2; k <= max && r.Chance(45); k++ {
+					bl = append(bl, fmt.Sprintf("%s%d", c, k))
+				}
 			}
 		}
 		bs := "-"
